@@ -63,7 +63,19 @@ def translate(repo):
                              "(the int/double split of integer literals changed)")
     if len(re.findall(r"myatol\s*\(|myatoi\s*\(|strtol|strtoll|atoll|atol\s*\(", src.split("void XdlParser::parse")[1].split("XdlParser::XdlParser()")[0])) != 0:
         raise TranslateError("XdlParser::parse converts a token with an integer routine other than myatoiz (myatol/strtol...)")
-    txt = "/- GENERATED by tools/props/c06.py from src/Xdl.cpp (states INT, UNICODECHAR) — do not edit -/\nnamespace Gen.Xdl\n\n"
+    ssrc = cparse.read(repo, "src/String.cpp")
+    mz = re.search(r"int\s+myatoiz\s*\(\s*const\s+char\s*\*\s*s\s*\)\s*\{\s*int\s+y\s*=\s*0\s*,\s*sgn\s*=\s*1\s*;\s*if\s*\(\s*s\[0\]\s*==\s*'(.)'\s*\)\s*\{\s*sgn\s*=\s*-1\s*;\s*s\+\+\s*;\s*\}"
+                   r"\s*else\s+if\s*\(\s*s\[0\]\s*==\s*'(.)'\s*\)\s*s\+\+\s*;\s*int\s+c\s*;\s*while\s*\(\s*\(\s*c\s*=\s*\*s\+\+\s*\)\s*\)\s*y\s*=\s*(\d+)\s*\*\s*y\s*\+\s*\(\s*c\s*-\s*'(.)'\s*\)\s*;"
+                   r"\s*return\s+y\s*\*\s*sgn\s*;\s*\}", ssrc)
+    if not mz:
+        raise TranslateError("myatoiz (src/String.cpp): `int y = 0, sgn = 1; if (s[0] == '-') {sgn = -1; s++;} else if (s[0] == '+') s++; int c; "
+                             "while ((c = *s++)) y = B * y + (c - '0'); return y*sgn;` not recognised (the integer conversion of state INT changed)")
+    txt = "/- GENERATED by tools/props/c06.py from src/Xdl.cpp (states INT, UNICODECHAR) and src/String.cpp (myatoiz) — do not edit -/\nnamespace Gen.Xdl\n\n"
+    txt += ("/-- `myatoiz` (src/String.cpp) statement by statement: `y = B * y + (c - 'z')` over all bytes up to the NUL, after an optional sign character;\n"
+            "    the characters and B are read from the source (bytes >= 0x80 would be negative `char`s: not modelled, state INT stores '-' and digits only) -/\n"
+            "def atoizStep (y : Int) (c : UInt8) : Int := %s * y + ((c.toNat : Int) - %d)\n"
+            "def myatoiz (s : List UInt8) : Int :=\n  match s with\n  | %d :: t => -(t.foldl atoizStep 0)\n  | %d :: t => t.foldl atoizStep 0\n  | _ => s.foldl atoizStep 0\n\n"
+            % (mz.group(3), ord(mz.group(4)), ord(mz.group(1)), ord(mz.group(2))))
     txt += "/-- state INT: integer literals of more than this many characters go through `atof`, the others through `myatoiz` -/\n"
     txt += "def intSplit : Nat := %s\n" % mint.group(1)
     txt += "/-- `char unicode[N]`, filled by `memcpy(unicode, _unicode, K)` and `unicode[T] = 0` -/\n"
@@ -74,7 +86,7 @@ def translate(repo):
     return {"Gen/XdlGen.lean": txt}
 
 
-FALLBACK = {"Gen/XdlGen.lean": "namespace Gen.Xdl\ndef intSplit : Nat := 0\ndef unicodeBuf : Nat := 0\ndef unicodeCopy : Nat := 0\ndef unicodeTerm : Nat := 0\n"
+FALLBACK = {"Gen/XdlGen.lean": "namespace Gen.Xdl\ndef atoizStep (y : Int) (c : UInt8) : Int := 0\ndef myatoiz (s : List UInt8) : Int := 0\ndef intSplit : Nat := 0\ndef unicodeBuf : Nat := 0\ndef unicodeCopy : Nat := 0\ndef unicodeTerm : Nat := 0\n"
                                "def unicodeMember : Nat := 0\ndef unicodeMod : Nat := 0\ndef chPair : Nat := 0\ndef chSingle : Nat := 0\nend Gen.Xdl\n"}
 
 WS = b" \t\n\r"
@@ -880,7 +892,8 @@ LEVEL_TEXT = ("Proved in Lean 4, for ALL byte strings / chunkings / documents, a
               "block comment /* b */ with b in the grammar XdlCmt.BlockBody - a byte other than '*', or '*' together with the byte after it unless that byte is '/' - "
               "met after any prefix that leaves the parser outside comments and outside the states STRING/QPROPERTY/ESCAPE, also in the middle of a number or "
               "name, decodes like the text without it; a line comment //...LF|CR decodes like its LF|CR alone; tied by K on texts of exactly that grammar and, on "
-              "the real library alone, by comparing the decode of 1500 commented texts with the decode of the uncommented ones on every run). The model is tied to the code on every run by the "
+              "the real library alone, by comparing the decode of 1500 commented texts with the decode of the uncommented ones on every run). myatoiz_from_source / myatoiz_no_overflow (the integer conversion of state INT is the function regenerated from "
+              "src/String.cpp on every run, and cannot overflow an int on what INT hands to it). The model is tied to the code on every run by the "
               "correspondence check under ASan/UBSan (whole decodes, chunked feeding, prefixes; grammar-generated JSON/XDL, mutations, raw bytes) "
               "and python3 json adjudicates every RFC 8259 document and prefix generated.")
 LEVEL_NOTE = ("All four planned theorem groups are proved in full (no _partial). rfc_accept and prefix_reject carry the hypothesis nesting <= 1000 "
@@ -888,8 +901,9 @@ LEVEL_NOTE = ("All four planned theorem groups are proved in full (no _partial).
               "int_literal_value states correct rounding on the grid of multiples of 2^(floor(log2 n)-52) with a 53-bit significand; that this grid is the set of "
               "binary64 values around n is the definition of the format, not a separate theorem. Fraction/exponent literals are covered by K + python only "
               "(general correct rounding of Strtod.roundRatio is not formalised). "
-              "myatoiz itself (src/String.cpp, y = 10*y + (c-'0')) is transcribed by hand in AslModel.Xdl.myatoiz: translate() only checks that state INT calls "
-              "myatoiz, so a change of its body is visible to K only. "
+              "myatoiz itself (src/String.cpp) is now regenerated (G): translate() reads its sign characters, multiplier and '0' into Gen.Xdl.myatoiz and refuses any other "
+              "shape; myatoiz_from_source proves the model's hand-written myatoiz equal to it, myatoiz_no_overflow that every intermediate y stays in [0, 2^31) for "
+              "[-]digits of at most intSplit characters (no signed overflow). Bytes >= 0x80 (negative chars) are not modelled there: state INT stores '-' and digits only. "
               "XDL-only syntax: comments now have a grammar and transparency theorems (block_comment_transparent, line_comment_transparent); unquoted names, "
               "Class{...}, Y/N are proved only for encoder output (C05 xdl_decode_encode*); free-form XDL separators (newline instead of comma, '=' vs ':') have "
               "no independent grammar: parse_safe/chunk_indep and K only. The filter closes a block comment only at a '*/' whose '*' is not the second byte "
